@@ -51,6 +51,7 @@ from datetime import date
 from pathlib import Path
 from typing import Any, Dict, List, Optional, Union
 
+import yaml
 import yatiml
 
 '''
@@ -198,6 +199,18 @@ def class_source(spec, c):
         elif sav == 'raise':
             L.append('        if node.is_mapping() and node.has_attribute("poison"):')
             L.append('            raise yatiml.SeasoningError("poisoned")')
+        elif isinstance(sav, dict) and 'rebuild' in sav:
+            # the documented idiom for non-scalar values: build a yaml node by hand
+            # and hand it to set_attribute(); such nodes carry no marks
+            L.append('        if node.is_mapping() and node.has_attribute({!r}):'.format(sav['rebuild']))
+            L.append('            old = node.get_attribute({!r}).yaml_node'.format(sav['rebuild']))
+            L.append('            if isinstance(old, yaml.ScalarNode):')
+            L.append('                new = yaml.ScalarNode(old.tag, old.value)')
+            L.append('            elif isinstance(old, yaml.MappingNode):')
+            L.append('                new = yaml.MappingNode(old.tag, list(old.value))')
+            L.append('            else:')
+            L.append('                new = yaml.SequenceNode(old.tag, list(old.value))')
+            L.append('            node.set_attribute({!r}, new)'.format(sav['rebuild']))
         else:
             L.append('        if node.is_mapping() and node.has_attribute({!r}):'.format(sav['from']))
             L.append('            node.rename_attribute({!r}, {!r})'.format(sav['from'], sav['to']))
